@@ -317,7 +317,7 @@ NoFailCalls(cl) == \A i \in DOMAIN cl : cl[i][Len(cl[i])] # "fail"
 
 \* observation-only facts (all good in the model's own outcome)
 GoodExtra == [lookup_bad |-> <<>>, early_open |-> 0, tmp_left |-> 0, manifest_same |-> TRUE, canon_same |-> TRUE,
-              dirs_ok |-> TRUE, unscripted |-> <<>>, diags_ok |-> TRUE]
+              dirs_ok |-> TRUE, unscripted |-> <<>>, diags_ok |-> TRUE, reopen_diff |-> <<>>, archive_diff |-> <<>>]
 
 \* verdict on an outcome given as (events e, calls cl, final tables, flags)
 VerdictW(W, adds, e, cl, pk, res, dep, anyErr, refusedAfter, bundleOK, x) ==
@@ -360,12 +360,15 @@ VerdictW(W, adds, e, cl, pk, res, dep, anyErr, refusedAfter, bundleOK, x) ==
              \cup (IF x.dirs_ok THEN {} ELSE { <<"coalescing-wrong">> })
              \cup { <<"environment-asked-something-new", x.unscripted[i]>> : i \in DOMAIN x.unscripted }
       w10 == IF x.tmp_left > 0 /\ bundleOK THEN { <<"temporary-directory-left">> } ELSE {}
+      \* C09: re-opening and archiving give an indistinguishable bundle
+      w09 == { <<"reopen", x.reopen_diff[i]>> : i \in DOMAIN x.reopen_diff } \cup { <<"archive", x.archive_diff[i]>> : i \in DOMAIN x.archive_diff }
   IN [c14 |-> w14 = {}, w14 |-> w14, kf14 |-> "",
       c08 |-> w08 = {}, w08 |-> w08, kf08 |-> "",
       c17 |-> w17 = {}, w17 |-> w17, kf17 |-> "",
       c12 |-> w12 = {}, w12 |-> w12, kf12 |-> "",
       c13 |-> w13 = {}, w13 |-> w13, kf13 |-> "",
-      c10 |-> w10 = {}, w10 |-> w10, kf10 |-> ""]
+      c10 |-> w10 = {}, w10 |-> w10, kf10 |-> "",
+      c09 |-> w09 = {}, w09 |-> w09, kf09 |-> ""]
 
 \* state-level wrappers
 WNow == [deps |-> wDeps, vers |-> wVers, src |-> wSrc]
